@@ -21,7 +21,7 @@ while [ $# -gt 0 ]; do
 done
 mkdir -p "$ROOT/.build" "$ROOT/evidence"
 cd "$ROOT/harness" || exit 2
-cp /repo/go.sum ./go.sum 2>/dev/null
+[ -f go.sum ] || cp /repo/go.sum ./go.sum
 if ! go build -tags verif -o "$ROOT/.build/vcheck" ./cmd/vcheck > "$ROOT/.build/build.log" 2>&1; then
   echo "BUILD-FAILED: harness does not build against /repo (see below)" >&2
   cat "$ROOT/.build/build.log" >&2
